@@ -235,6 +235,17 @@ def case_perpendicular_3d(ctx):
     ctx.require("is_perpendicular-3d:iff-dot-product-zero", ctx.iff(ctx.truth(r), ctx.is_zero(sum(u[i] * v[i] for i in range(3)))))
 
 
+def case_perpendicular_3d_lattice(ctx):
+    """lattice lines through (10,10,10) in the tilted plane x+y+z=30 (offset larger than every normal component)"""
+    from geometer import Point, Line, is_perpendicular
+    A = [10.0, 10.0, 10.0]
+    for u, v, expect in (((1, -1, 0), (1, 1, -2), True), ((1, -1, 0), (1, 0, -1), False), ((2, -1, -1), (0, 1, -1), True)):
+        l = Line(Point(*A), Point(*[A[i] + u[i] for i in range(3)]))
+        m = Line(Point(*A), Point(*[A[i] + v[i] for i in range(3)]))
+        r = is_perpendicular(l, m)
+        ctx.require(f"is_perpendicular-3d-lattice{u}{v}", ctx.iff(ctx.truth(r), expect))
+
+
 def cases(tier, seed):
     Q, T = ("quick", "thorough"), ("thorough",)
     cs = []
@@ -251,5 +262,6 @@ def cases(tier, seed):
     add("basis_matrix_2d", case_basis_matrix, tiers=Q, max_paths=2000)
     add("plane_constructions_3d", case_plane_constructions, tiers=Q, max_paths=2000)
     add("collinear4_collections", case_collinear4_collections, tiers=Q, max_paths=2000)
+    add("perpendicular_3d_lattice", case_perpendicular_3d_lattice, tiers=Q, max_paths=2000)
     add("perpendicular_3d", case_perpendicular_3d, tiers=T, max_paths=2000)
     return cs
